@@ -1308,6 +1308,7 @@ def history_direct(rng, cls, kind, tbl, nsteps, script=None):
     done = []
     info = {'class': '%s.%s' % (cls.__module__, cls.__name__), 'prim': kind}
     obj = None
+    orig = None                                 # (object a copy was made of, its state at that time): must stay as it was
     n = 0
 
     def pick():
@@ -1364,6 +1365,7 @@ def history_direct(rng, cls, kind, tbl, nsteps, script=None):
                 expected = obj_state(kind, fresh)
             elif st[0] == 'copy':
                 expected = obj_state(kind, obj)
+                orig = (obj, expected)
                 obj = cls(obj)
             elif st[0] == 'set_tuple':
                 obj.set_tuple(st[1], st[2])
@@ -1394,6 +1396,9 @@ def history_direct(rng, cls, kind, tbl, nsteps, script=None):
         if expected is not None and obj_state(kind, obj) != expected:
             return dict(info, kind='object-differs-from-fresh', step=len(done) - 1, state=repr(obj_state(kind, obj))[:160],
                         fresh=repr(expected)[:160], history=[replay_step(x) for x in done]), done, n
+        if orig is not None and obj_state(kind, orig[0]) != orig[1]:
+            return dict(info, kind='copy-shares-state-with-original', step=len(done) - 1, original_now=repr(obj_state(kind, orig[0]))[:160],
+                        original_was=repr(orig[1])[:160], history=[replay_step(x) for x in done]), done, n
         n += 1
         f = check_object(obj, cls, kind, [rng.choice(CTX_QUICK)] if script is None else CTX_QUICK, tbl, info)
         if f:
